@@ -1298,7 +1298,8 @@ class Models:
         def b_next(W, a, k):
             it = a[0]
             if isinstance(it, SGen):
-                raise Unsupported("next() on a generator")
+                from . import prelude
+                return Redirect(prelude._next_gen, (it, a[1] if len(a) > 1 else None, len(a) > 1))
             ok, v = M.iter_next(W, it)
             if ok:
                 return v
